@@ -62,6 +62,7 @@ Event(e) ==
     [] e.e = "spawn.call" -> IF e.p = SupProc THEN SupRespawnCall(e.p, e.a, e.name, e.cap, e.sup)
                                               ELSE SpawnCall(e.p, e.a, e.name, e.cap, e.sup)
     [] e.e = "spawn.ret" -> SpawnRet(e.p, e.res)
+    [] e.e = "start.enter" -> StartEnter(e.a)
     [] e.e = "hook" -> HookStep(e)
     [] e.e = "send.call" -> e.k \in AllKinds /\ SendCall(e.p, e.a, e.n, e.k)
     [] e.e = "gsend.call" -> e.k \in AllKinds /\ GSendCall(e.p, e.n, e.k)
